@@ -121,6 +121,17 @@ theorem hp_excess (obs : Fin n → Bool) (y : Fin n → K) (lam : K)
   unfold wlsObj
   simp only [Pi.zero_apply, zero_sub, neg_sq]
 
+omit [LinearOrder K] [IsStrictOrderedRing K] in
+/-- **Kernel of `K` = the affine sequences** (both directions, every `n ≥ 2`): `K τ = 0 ↔ τ_t = a + b t`. -/
+theorem hp_kernel_iff_affine (hn : 2 ≤ n) (τ : Fin n → K) :
+    Kmat n *ᵥ τ = 0 ↔ ∃ a b : K, ∀ t : Fin n, τ t = a + b * (t.val : K) := by
+  constructor
+  · intro h
+    exact ⟨τ ⟨0, by omega⟩, τ ⟨1, by omega⟩ - τ ⟨0, by omega⟩, fun t => Kmat_kernel n hn τ h t.val t.isLt⟩
+  · rintro ⟨a, b, h⟩
+    have : τ = fun t : Fin n => a + b * (t.val : K) := funext h
+    rw [this]; exact Kmat_affine n a b
+
 /-- a sequence that is invisible to the smoothness term (`K d = 0`) and vanishes at two distinct observed
 positions is zero: two observations pin the null space of `K` -/
 theorem two_observations_pin (obs : Fin n → Bool) (s t : Fin n) (hst : s ≠ t) (hs : obs s = true) (ht : obs t = true)
